@@ -188,7 +188,7 @@ def main():
         return res
     base = os.path.dirname(I.__file__)
     out["except_lists"] = {
-        "interpret": except_lists(os.path.join(base, "interpret.py"), ["execute", "load_history", "save_history", "execute_plot"]),
+        "interpret": except_lists(os.path.join(base, "interpret.py"), ["execute", "load_history", "save_history", "execute_plot", "print_unit_info", "execute_interpreter_command", "run_interpreter"]),
         "eval": except_lists(os.path.join(base, "eval.py"), ["eval_parse_tree", "compose_units"]),
         "currency": except_lists(os.path.join(base, "currency.py"), ["load_currency_data"]),
         "types": except_lists(os.path.join(base, "types.py"), ["instant_from_iso"]),
